@@ -35,6 +35,14 @@
     * `walk_symbols_resolve_like_python`: hence every `Import` symbol of every compiled root context
       (what `-o ir` prints) stems from a statement of the compiled file and names the module Python
       resolves that statement to.
+  Symbolic links (`.resolve()` is a parameter `rv` of the model; every theorem is for every `rv`):
+    * `tieA_resolve_site`: `find_module_in_path` resolves the search directory and nothing else,
+      `Import.origin` resolves the whole path; who enters which;
+    * `C13_origin_below_search_dir`, `C13_located_roundtrip`: the located origin is the resolved search
+      directory followed by the path as spelled, and the file entered under it gets its name back;
+    * `walk_followed_cur_is_origin`, `walk_call_base_is_cur_name`; `walk_cur_is_file` and what rests
+      on it assume `Walk.LinkFree` — (d) `C13_cex_star_symlink`: the star-expansion enters a
+      star-imported file under its FULLY resolved path (known finding).
 -/
 import RattrModel.Locator
 import RattrModel.Spec.ResolveName
@@ -71,6 +79,43 @@ theorem tieA_walk_sites :
     ∧ Generated.C13.compileSites = Walk.compileCalls
     ∧ Generated.C13.enterFileRestoresOnException = false
     ∧ Generated.C13.relVisitorsReadCurrentFileOnly = true := by decide
+
+/-! The probe of `py/tables/t_c13.py::resolve_rows` as the model sees it: search directory `<R>`
+(also spelled `<L>`, a link to it) holding `mod.py`, the link `lnk → <X>/real` (a package with
+`mod.py`) and the link `lmod.py → <X>/other.py`. -/
+private def pR : Str := "<R>".toList
+private def pX : Str := "<X>".toList
+private def pL : Str := "<L>".toList
+private def sLnk : Str := "lnk".toList
+private def probeLinks : Links :=
+  [([pL], [pR]), ([pR, sLnk], [pX, "real".toList]), ([pR, "lmod.py".toList], [pX, "other.py".toList])]
+private def probeFiles : Files := [[sLnk, initPy], [sLnk, "mod.py".toList], ["lmod.py".toList], ["mod.py".toList]]
+private def probeAt (dir : Path) (name : Dotted) : Path :=
+  (findModuleInPathAbs (resolveLinks probeLinks 8) resolveSite dir probeFiles name).getD ["-".toList]
+private def probeModel : List (String × Path) :=
+  [("R:lnk", probeAt [pR] [sLnk]), ("R:lnk.mod", probeAt [pR] [sLnk, "mod".toList]),
+   ("R:lmod", probeAt [pR] ["lmod".toList]), ("R:mod", probeAt [pR] ["mod".toList]),
+   ("L:lnk", probeAt [pL] [sLnk]), ("L:lnk.mod", probeAt [pL] [sLnk, "mod".toList]),
+   ("L:lmod", probeAt [pL] ["lmod".toList]), ("L:mod", probeAt [pL] ["mod".toList])]
+
+/-- Where `.resolve()` is applied: inside `find_module_in_path` to the search directory and to
+nothing else (the location is returned as built); once more, to the whole path, inside `Import.origin`;
+`parse_and_analyse_imports` enters `spec.origin`, `expand_starred_imports` enters `starred.origin`
+(an `Import.origin`) to compile the star-imported file — and, since 150f7d8, the file the starred import
+is written in (`starred.location.defined_in`) around its two `error.error` calls, which compile
+nothing and resolve nothing (`Walk.expandLoop` records those diagnostics by line). And the real function, run on a directory with a symlinked package, a symlinked
+module file and through a symlinked spelling of the directory, returns what the model returns. -/
+theorem tieA_resolve_site :
+    Generated.C13.findResolvingCalls = ["python_path.resolve"]
+    ∧ Generated.C13.findReturns = ["None", "None", "install_location"]
+    ∧ Generated.C13.importOriginResolvingCalls = ["Path(self.module_spec.origin).resolve"]
+    ∧ Generated.C13.enterFileArgs =
+        [("rattr/analyser/file.py::parse_and_analyse_file", "config.arguments.target"),
+         ("rattr/analyser/file.py::parse_and_analyse_imports", "spec.origin"),
+         ("rattr/models/context/_context.py::expand_starred_imports", "starred.location.defined_in"),
+         ("rattr/models/context/_context.py::expand_starred_imports", "starred.origin")]
+    ∧ resolveSite = ResolveSite.searchDir
+    ∧ Generated.C13.symlinkProbe.map (fun np => (np.1, np.2.map String.toList)) = probeModel := by decide
 
 /-! ### Generic lemmas on searches over `List.range` -/
 
@@ -688,6 +733,289 @@ theorem C13_roundtrip_fs (env : Env) (comps : List Str) (pre own : Dotted) (i : 
   rw [hfirst] at h1
   exact ⟨_, (C13_roundtrip env comps pre own _ hL hw.1 h1 hno).2, rfl⟩
 
+/-! ### (c) behind symbolic links: the origin stays below the search directory -/
+
+/-- What `find_module_in_path` matched is a file of the root, spelled from the name's parts. -/
+theorem findModuleInPath_shape (files : Files) (name : Dotted) (rel : Path)
+    (h : findModuleInPath files name = some rel) :
+    rel ∈ files ∧ (rel = name.filter (fun c => c ≠ []) ++ [initPy]
+      ∨ rel = withSuffixPy (name.filter (fun c => c ≠ []))) := by
+  unfold findModuleInPath at h
+  split at h
+  · cases h
+  · simp only at h
+    split at h
+    · split at h
+      · rename_i hc
+        simp only [Option.some.injEq] at h
+        subst h
+        exact ⟨List.contains_iff_mem.mp hc, Or.inl rfl⟩
+      · cases h
+    · split at h
+      · rename_i hc
+        simp only [Option.some.injEq] at h
+        subst h
+        exact ⟨List.contains_iff_mem.mp hc, Or.inr rfl⟩
+      · cases h
+
+/-- With `.resolve()` applied to the search directory (the pinned code), whatever `.resolve()` does —
+every link structure, links below the search directory included — the returned location is the
+resolved search directory followed by the module's path AS SPELLED: it lies below the search
+directory and spells the module's name. -/
+theorem C13_origin_below_search_dir (rv : Path → Path) (dir : Path) (files : Files) (name : Dotted) (p : Path)
+    (h : findModuleInPathAbs rv .searchDir dir files name = some p) :
+    ∃ rel, findModuleInPath files name = some rel ∧ p = rv dir ++ rel ∧ rv dir <+: p ∧ rel ∈ files
+      ∧ (rel = name.filter (fun c => c ≠ []) ++ [initPy] ∨ rel = withSuffixPy (name.filter (fun c => c ≠ []))) := by
+  unfold findModuleInPathAbs at h
+  cases hf : findModuleInPath files name with
+  | none => rw [hf] at h; cases h
+  | some rel =>
+    rw [hf] at h
+    simp only [Option.map_some, originAbs, Option.some.injEq] at h
+    obtain ⟨hm, hshape⟩ := findModuleInPath_shape files name rel hf
+    exact ⟨rel, rfl, h.symm, by rw [← h]; exact List.prefix_append _ _, hm, hshape⟩
+
+/-! `str(path).replace("/", ".").split(".")` of such a location -/
+
+theorem splitSeg_dotfree (s : Str) (h : '.' ∉ s) : splitSeg s = [s] := by
+  induction s with
+  | nil => rfl
+  | cons c r ih =>
+    have hc : c ≠ '.' := fun e => h (by rw [e]; exact List.mem_cons_self ..)
+    have hr : '.' ∉ r := fun e => h (List.mem_cons_of_mem _ e)
+    simp only [splitSeg, hc, if_false, ih hr]
+
+theorem splitSeg_append_dot (s t : Str) (h : '.' ∉ s) : splitSeg (s ++ '.' :: t) = s :: splitSeg t := by
+  induction s with
+  | nil => simp [splitSeg]
+  | cons c r ih =>
+    have hc : c ≠ '.' := fun e => h (by rw [e]; exact List.mem_cons_self ..)
+    have hr : '.' ∉ r := fun e => h (List.mem_cons_of_mem _ e)
+    simp only [List.cons_append, splitSeg, hc, if_false, ih hr]
+
+theorem splitSeg_dotPy (s : Str) (h : '.' ∉ s) : splitSeg (s ++ dotPy) = [s, sPy] := by
+  have : dotPy = '.' :: sPy := by decide
+  rw [this, splitSeg_append_dot s sPy h]
+  have : splitSeg sPy = [sPy] := by decide
+  rw [this]
+
+theorem flatMap_splitSeg_dotfree (l : List Str) (h : ∀ c, c ∈ l → '.' ∉ c) : l.flatMap splitSeg = l := by
+  induction l with
+  | nil => rfl
+  | cons a r ih =>
+    rw [List.flatMap_cons, splitSeg_dotfree a (h a (List.mem_cons_self ..)),
+      ih (fun c hc => h c (List.mem_cons_of_mem _ hc))]
+    rfl
+
+theorem pathComps_append (a b : Path) : pathComps (a ++ b) = pathComps a ++ b.flatMap splitSeg := by
+  simp [pathComps, List.flatMap_append]
+
+theorem removeSuffix_append (X suf : List Str) (hX : X ≠ []) : removeSuffix suf (X ++ suf) = X := by
+  have hl : 0 < X.length := List.length_pos_iff.mpr hX
+  unfold removeSuffix
+  have h1 : (X ++ suf).length - suf.length = X.length := by simp
+  rw [h1, List.drop_left, List.take_left]
+  simp
+  intro h
+  exact absurd h hX
+
+theorem getLast?_append_ne {α : Type} (X Y : List α) (h : Y ≠ []) : (X ++ Y).getLast? = Y.getLast? := by
+  rw [List.getLast?_append]
+  cases hy : Y.getLast? with
+  | none => exact absurd (List.getLast?_eq_none_iff.mp hy) h
+  | some a => rfl
+
+theorem removeSuffix_one_noop (a : Str) (c : List Str) (h : c.getLast? ≠ some a) : removeSuffix [a] c = c := by
+  unfold removeSuffix
+  split
+  · rename_i hc
+    simp only [Bool.and_eq_true, decide_eq_true_eq, List.length_cons, List.length_nil] at hc
+    exfalso
+    apply h
+    have := List.take_append_drop (c.length - (0 + 1)) c
+    rw [hc.2] at this
+    rw [← this, List.getLast?_append]
+    simp
+  · rfl
+
+theorem removeSuffix_two_noop (a b : Str) (Y : List Str) (h : Y.getLast? ≠ some a) :
+    removeSuffix [a, b] (Y ++ [b]) = Y ++ [b] := by
+  unfold removeSuffix
+  split
+  · rename_i hc
+    simp only [Bool.and_eq_true, decide_eq_true_eq, List.length_cons, List.length_nil, List.length_append] at hc
+    exfalso
+    apply h
+    have := List.take_append_drop (Y.length + 1 - (0 + 1 + 1)) (Y ++ [b])
+    rw [hc.2] at this
+    have h2 : (List.take (Y.length + 1 - (0 + 1 + 1)) (Y ++ [b]) ++ [a]) ++ [b] = Y ++ [b] := by
+      rw [List.append_assoc]; exact this
+    have h3 := List.append_inj_left' h2 rfl
+    rw [← h3, List.getLast?_append]
+    simp
+  · rfl
+
+theorem dropEmptyFront_append (X Y : List Str) (hY : ∀ y, Y.head? = some y → y ≠ []) :
+    dropEmptyFront (X ++ Y) = dropEmptyFront X ++ Y := by
+  induction X with
+  | nil =>
+    cases Y with
+    | nil => rfl
+    | cons y r =>
+      cases y with
+      | nil => exact absurd rfl (hY [] rfl)
+      | cons a b => rfl
+  | cons x X ih =>
+    cases x with
+    | nil => simpa [dropEmptyFront] using ih
+    | cons a b => rfl
+
+theorem dropEmptyFront_id (l : List Str) (h : ∀ y, l.head? = some y → y ≠ []) : dropEmptyFront l = l := by
+  have := dropEmptyFront_append [] l h
+  simpa [dropEmptyFront] using this
+
+/-- `.strip(".")` leaves alone what follows the leading dots when the last component is non-empty -/
+theorem stripDots_append (X name : List Str) (hne : name ≠ []) (hmem : [] ∉ name) :
+    stripDots (X ++ name) = dropEmptyFront X ++ name := by
+  have hhead : ∀ y, name.head? = some y → y ≠ [] := by
+    intro y hy h0
+    subst h0
+    exact hmem (List.mem_of_mem_head? hy)
+  unfold stripDots
+  rw [dropEmptyFront_append X name hhead]
+  have hlast : ∀ y, (dropEmptyFront X ++ name).reverse.head? = some y → y ≠ [] := by
+    intro y hy h0
+    subst h0
+    rw [List.head?_reverse, getLast?_append_ne _ _ hne] at hy
+    exact hmem (List.mem_of_getLast? hy)
+  rw [dropEmptyFront_id _ hlast, List.reverse_reverse]
+  unfold joinSplit
+  rw [if_neg]
+  intro h0
+  exact hne (List.append_eq_nil_iff.mp h0).2
+
+/-- the path components of a dot-free name -/
+def DotFree (name : Dotted) : Prop := ∀ c, c ∈ name → '.' ∉ c
+
+/-- a name whose file is not itself called `py` / `__init__` (`a/py/__init__.py` ↦ `"a.py"` loses its
+last component to `removesuffix(".py")`) -/
+def PlainLast (name : Dotted) : Prop := name.getLast? ≠ some sPy ∧ name.getLast? ≠ some sInit
+
+theorem filter_wellFormed (name : Dotted) (hw : WellFormed name) :
+    name.filter (fun c => decide (c ≠ [])) = name := by
+  rw [List.filter_eq_self]
+  intro a ha
+  simp only [ne_eq, decide_not, Bool.not_eq_eq_eq_not, Bool.not_true, decide_eq_false_iff_not]
+  intro h0; subst h0; exact hw.2 ha
+
+/-- The longest module name read off a location `R ++ rel` (`rel` what `find_module_in_path` matched
+for `name`) is the components of `R` followed by `name`. -/
+theorem longestName_location (R rel : Path) (name : Dotted)
+    (hw : WellFormed name) (hdot : DotFree name) (hpl : PlainLast name)
+    (hshape : rel = name ++ [initPy] ∨ rel = withSuffixPy name) :
+    longestName (pathComps (R ++ rel)) = dropEmptyFront (pathComps R) ++ name := by
+  have hXne : ∀ (Z : List Str), pathComps R ++ Z ≠ [] := by
+    intro Z h0
+    simp [pathComps] at h0
+  have hinit : splitSeg initPy = [sInit, sPy] := by decide
+  rw [pathComps_append]
+  unfold longestName
+  rcases hshape with h | h
+  · subst h
+    rw [List.flatMap_append, flatMap_splitSeg_dotfree name hdot, List.flatMap_cons, List.flatMap_nil, hinit,
+      List.append_nil, ← List.append_assoc, removeSuffix_append _ _ (hXne name),
+      removeSuffix_one_noop sPy _ (by rw [getLast?_append_ne _ _ hw.1]; exact hpl.1)]
+    exact stripDots_append _ name hw.1 hw.2
+  · subst h
+    have hsplit : (withSuffixPy name).flatMap splitSeg = name ++ [sPy] := by
+      conv => lhs; rw [← List.dropLast_concat_getLast hw.1, withSuffixPy_concat]
+      have hd : ∀ c, c ∈ name.dropLast → '.' ∉ c := fun c hc => hdot c (List.dropLast_subset _ hc)
+      rw [List.flatMap_append, flatMap_splitSeg_dotfree _ hd, List.flatMap_cons, List.flatMap_nil,
+        splitSeg_dotPy _ (hdot _ (List.getLast_mem hw.1)), List.append_nil]
+      conv => rhs; rw [← List.dropLast_concat_getLast hw.1]
+      simp
+    rw [hsplit, ← List.append_assoc,
+      removeSuffix_two_noop sInit sPy _ (by rw [getLast?_append_ne _ _ hw.1]; exact hpl.2),
+      removeSuffix_append _ _ (hXne name)]
+    exact stripDots_append _ name hw.1 hw.2
+
+theorem locateFrom_mem (fs : FS) (k i : Nat) (name : Dotted) (p : Path)
+    (h : (i, p) ∈ locateFrom k fs name) :
+    ∃ files, fs[i - k]? = some files ∧ k ≤ i ∧ findModuleInPath files name = some p := by
+  induction fs generalizing k with
+  | nil => simp [locateFrom] at h
+  | cons files rest ih =>
+    simp only [locateFrom] at h
+    cases hf : findModuleInPath files name with
+    | some q =>
+      rw [hf] at h
+      simp only [List.mem_cons, Prod.mk.injEq] at h
+      rcases h with ⟨h1, h2⟩ | h
+      · subst h1; subst h2
+        exact ⟨files, by simp, Nat.le_refl _, hf⟩
+      · obtain ⟨fl, h1, h2, h3⟩ := ih (k + 1) h
+        refine ⟨fl, ?_, by omega, h3⟩
+        have : i - k = (i - (k + 1)) + 1 := by omega
+        rw [this]; simpa using h1
+    | none =>
+      rw [hf] at h
+      obtain ⟨fl, h1, h2, h3⟩ := ih (k + 1) h
+      refine ⟨fl, ?_, by omega, h3⟩
+      have : i - k = (i - (k + 1)) + 1 := by omega
+      rw [this]; simpa using h1
+
+/-- name → file → name, for EVERY resolver (every structure of symbolic links: a symlinked package
+directory or module file below the search root, a symlinked search root, chains, nestings): with
+`.resolve()` applied to the search directory, the file located for `name` — entered as
+`enter_file(spec.origin)` by `parse_and_analyse_imports` — gets the module name `name` back, so its
+relative imports resolve against the package it was imported as (`C13_relative`). Hypotheses: the
+name is not classified stdlib, and no longer suffix of the resolved search directory's own path
+followed by `name` happens to exist as a module (the hypothesis of `C13_roundtrip`). -/
+theorem C13_located_roundtrip (env : Env) (M : Mounts) (hsite : M.site = .searchDir)
+    (name : Dotted) (hw : WellFormed name) (hdot : DotFree name) (hpl : PlainLast name)
+    (hs : Dict.get? env.stdlib name = none)
+    (i : Nat) (rel dir : Path)
+    (hloc : (locate env.fs name).head? = some (i, rel)) (hdir : M.dirs[i]? = some dir)
+    (hno : ∀ k, k < (dropEmptyFront (pathComps (M.rv dir))).length →
+        findModuleSpecFast env ((dropEmptyFront (pathComps (M.rv dir)) ++ name).drop k) = none) :
+    findModuleSpecFast env name = some { name := name, origin := some (.file i rel) }
+    ∧ specAbs M { name := name, origin := some (.file i rel) } = some (M.rv dir ++ rel)
+    ∧ followBase env M name = some name := by
+  have hspec : findModuleSpecFast env name = some { name := name, origin := some (.file i rel) } := by
+    unfold findModuleSpecFast
+    rw [hs]
+    cases hl : locate env.fs name with
+    | nil => rw [hl] at hloc; cases hloc
+    | cons a r =>
+      rw [hl] at hloc
+      simp only [List.head?_cons, Option.some.injEq] at hloc
+      subst hloc
+      rfl
+  have habs : specAbs M { name := name, origin := some (.file i rel) } = some (M.rv dir ++ rel) := by
+    simp [specAbs, hdir, originAbs, hsite]
+  refine ⟨hspec, habs, ?_⟩
+  have hmem : (i, rel) ∈ locate env.fs name := List.mem_of_mem_head? hloc
+  obtain ⟨files, _, _, hfind⟩ := locateFrom_mem env.fs 0 i name rel hmem
+  obtain ⟨_, hshape⟩ := findModuleInPath_shape files name rel hfind
+  rw [filter_wellFormed name hw] at hshape
+  have hL := longestName_location (M.rv dir) rel name hw hdot hpl hshape
+  have hrt := (C13_roundtrip env (pathComps (M.rv dir ++ rel)) _ name _ hL hw.1 hspec hno).1
+  unfold followBase
+  rw [hspec]
+  simp only [Option.bind_some, habs, nameOfAbs]
+  exact hrt
+
+/-- The walk's `current_file` of a followed import (`Walk.curOf true g`: search root 0's components,
+then the file as spelled) IS the location `find_module_in_path` returns with `.resolve()` applied to
+the search directory — for every resolver. -/
+theorem walk_followed_cur_is_origin (P : Walk.Proj) (g : Walk.File) (rv : Path → Path) (dir : Path)
+    (hroot : P.rootComps = pathComps (rv dir)) (hdir : ∀ c, c ∈ g.dir → '.' ∉ c) (hstem : '.' ∉ g.stem) :
+    Walk.curComps P (Walk.curOf true g) = pathComps (originAbs rv .searchDir dir g.path) := by
+  simp only [Walk.curComps, Walk.curOf, originAbs, Walk.File.path, Bool.false_eq_true, if_false, if_true]
+  rw [pathComps_append, List.flatMap_append, flatMap_splitSeg_dotfree _ hdir, List.flatMap_cons,
+    List.flatMap_nil, splitSeg_dotPy _ hstem, hroot]
+  simp
+
 /-! ### The full statement (kept visible; false on the pinned tree) -/
 
 /-- (a) at one call: Python resolves ⇒ same name; Python refuses ⇒ an unresolvable name -/
@@ -756,17 +1084,29 @@ star-expansion (nested to any depth) — its root context is compiled, and every
 is resolved, while `Config().state.current_file` IS that file: the logged current file has the path
 and stem of the file whose statements are being registered; the `isInit` flag and the base handed to
 `derive_absolute_module_name` are those of that file. For every project, target and fuel. -/
-theorem walk_cur_is_file (P : Walk.Proj) (fuel : Nat) (tgt : Walk.File) :
+theorem walk_cur_is_file (P : Walk.Proj) (hlf : Walk.LinkFree P) (fuel : Nat) (tgt : Walk.File) :
     (∀ e, e ∈ (Walk.run P fuel tgt).st.events → e.cur.path = e.file.path ∧ e.cur.stem = e.file.stem)
     ∧ (∀ r, r ∈ (Walk.run P fuel tgt).st.trace →
         r.cur.path = r.file ∧ r.cur.stem = r.stem ∧ r.call.isInit = (r.stem == sInit) ∧ 1 ≤ r.call.level
         ∧ deriveModuleNameFromPath P.env (Walk.curComps P r.cur) = some r.call.base) := by
   have inv := Walk.run_inv P fuel tgt
-  refine ⟨inv.evs, ?_⟩
+  refine ⟨fun e he => inv.evs e he hlf, ?_⟩
   intro r hr
   have g := inv.recs r hr
-  refine ⟨g.file, g.stem, ?_, g.level, g.base⟩
-  rw [g.init, Walk.Cur.isInit, g.stem]
+  refine ⟨g.file hlf, g.stem hlf, ?_, g.level, g.base⟩
+  rw [g.init, Walk.Cur.isInit, g.stem hlf]
+
+/-- For EVERY project — symbolic links below the search root included — the base handed to
+`derive_absolute_module_name` is the module name derived from the current file's path, and the
+`isInit` flag is the current file's: whatever goes wrong behind a link goes wrong through the VALUE of
+`current_file` (`Walk.starCur`), nowhere else. -/
+theorem walk_call_base_is_cur_name (P : Walk.Proj) (fuel : Nat) (tgt : Walk.File) :
+    ∀ r, r ∈ (Walk.run P fuel tgt).st.trace →
+      r.call.isInit = r.cur.isInit ∧ 1 ≤ r.call.level
+      ∧ deriveModuleNameFromPath P.env (Walk.curComps P r.cur) = some r.call.base := by
+  intro r hr
+  have g := (Walk.run_inv P fuel tgt).recs r hr
+  exact ⟨g.init, g.level, g.base⟩
 
 /-- The calls of `derive_absolute_module_name` made by the whole walk are ONE run through one cache
 (`runCalls`, the object of `C13_run_noclash` / `C13a_partial`): nothing else touches the cache. -/
@@ -780,7 +1120,7 @@ relative import of every reached file whose derived module name is the file's ow
 (`walk_base_is_own_name`) resolves to exactly what `importlib.util.resolve_name` gives for THAT
 file's package; when Python refuses, the produced name has an empty first component and
 `find_module_name_and_spec` rejects it (the "unable to resolve relative import" branch). -/
-theorem walk_resolves_like_python (P : Walk.Proj) (fuel : Nat) (tgt : Walk.File)
+theorem walk_resolves_like_python (P : Walk.Proj) (hlf : Walk.LinkFree P) (fuel : Nat) (tgt : Walk.File)
     (hcf : ClashFree ((Walk.run P fuel tgt).st.trace.map (·.call)))
     (hs : isStdlib P.env [[]] = false)
     (r : Walk.Rec) (hr : r ∈ (Walk.run P fuel tgt).st.trace) (hown : r.call.base = ownName r) :
@@ -788,7 +1128,7 @@ theorem walk_resolves_like_python (P : Walk.Proj) (fuel : Nat) (tgt : Walk.File)
         r.result = x)
     ∧ (∀ e, Spec.pyResolveName (Spec.packageOf (ownName r) (r.stem == sInit)) r.call.level r.call.target = .error e →
         r.result.head? = some [] ∧ findModuleNameAndSpec P.env r.result = none) := by
-  obtain ⟨_, hrec⟩ := walk_cur_is_file P fuel tgt
+  obtain ⟨_, hrec⟩ := walk_cur_is_file P hlf fuel tgt
   obtain ⟨_, _, hinit, hl, hbase⟩ := hrec r hr
   have hres := walk_is_one_cached_run P fuel tgt
   rw [C13_run_noclash _ hcf, List.map_map] at hres
@@ -810,8 +1150,7 @@ theorem walk_base_is_own_name (P : Walk.Proj) (fuel : Nat) (tgt : Walk.File)
     (hfirst : findModuleSpecFast P.env (ownName r) = some s)
     (hno : ∀ k, k < pre.length → findModuleSpecFast P.env ((pre ++ ownName r).drop k) = none) :
     r.call.base = ownName r := by
-  obtain ⟨_, hrec⟩ := walk_cur_is_file P fuel tgt
-  obtain ⟨_, _, _, _, hbase⟩ := hrec r hr
+  obtain ⟨_, _, hbase⟩ := walk_call_base_is_cur_name P fuel tgt r hr
   have := (C13_roundtrip P.env _ pre (ownName r) s hL hne hfirst hno).1
   rw [hbase] at this
   exact Option.some.inj this
@@ -826,7 +1165,7 @@ that statement's module (`m`, or `m.<name>`), where for a relative import `m` is
 `importlib.util.resolve_name` gives for the compiled file's package (an unresolvable name with an
 empty first component when Python refuses). Hypotheses: no module/package name clash in the walk, the
 round trip (`walk_base_is_own_name`) for the logged calls. -/
-theorem walk_symbols_resolve_like_python (P : Walk.Proj) (fuel : Nat) (tgt : Walk.File)
+theorem walk_symbols_resolve_like_python (P : Walk.Proj) (hlf : Walk.LinkFree P) (fuel : Nat) (tgt : Walk.File)
     (hcf : ClashFree ((Walk.run P fuel tgt).st.trace.map (·.call)))
     (hs : isStdlib P.env [[]] = false)
     (hrt : ∀ r, r ∈ (Walk.run P fuel tgt).st.trace → r.call.base = ownName r)
@@ -851,7 +1190,7 @@ theorem walk_symbols_resolve_like_python (P : Walk.Proj) (fuel : Nat) (tgt : Wal
       have hown : ownName r = fileName e.file := by
         unfold ownName fileName
         rw [hfile, hstem, Walk.File.path, List.dropLast_concat]
-      obtain ⟨hok, herr⟩ := walk_resolves_like_python P fuel tgt hcf hs r hr (hrt r hr)
+      obtain ⟨hok, herr⟩ := walk_resolves_like_python P hlf fuel tgt hcf hs r hr (hrt r hr)
       rw [hown, hstem, hlev, htg] at hok herr
       constructor
       · intro x hx
@@ -937,6 +1276,23 @@ theorem C13_cex_nsdir_shadow :
     ∧ Spec.firstMatch envNsDir.fs [pa] = some (0, ["pa.py".toList])
     ∧ longestName [pa, sPy] = [pa]
     ∧ deriveModuleNameFromPath envNsDir [pa, sPy] = none := by
+  decide
+
+private def envPyPkg : Env :=
+  { fs := [[[pa, initPy], [pa, sPy, initPy], [pa, sPy, "ma.py".toList], [pa, "ma.py".toList]]], stdlib := [] }
+
+/-- A package whose own name is `py`: `derive_module_name_from_path` strips `".__init__.py"` and then
+`".py"` — `pa/py/__init__.py` ↦ `"pa.py"` ↦ `"pa"`: the package file gets its PARENT's name, the
+round trip returns `pa/__init__.py`, and `from . import ma` inside it resolves to `pa.ma` (an
+existing, different module); Python: `pa.py.ma`. (The hypothesis `PlainLast` of
+`longestName_location`.) -/
+theorem C13_cex_package_named_py :
+    longestName [pa, sPy, sInit, sPy] = [pa]
+    ∧ Spec.firstMatch envPyPkg.fs [pa, sPy] = some (0, [pa, sPy, initPy])
+    ∧ (deriveModuleNameFromPath envPyPkg [pa, sPy, sInit, sPy]).bind (findModuleSpecFast envPyPkg)
+        = some { name := [pa], origin := some (.file 0 [pa, initPy]) }
+    ∧ deriveAbs true [pa] (some ["ma".toList]) 1 = [pa, "ma".toList]
+    ∧ Spec.pyResolveName (Spec.packageOf [pa, sPy] true) 1 (some ["ma".toList]) = .ok [pa, sPy, "ma".toList] := by
   decide
 
 theorem C13b_full_false : ¬ C13b_full := by
@@ -1041,5 +1397,89 @@ example : ClashFree (demoTrace.map (·.call)) := by
   rcases this with h1 | h1
   · exact absurd hk h1
   · exact h1
+
+/-! Symbolic links: `/proj/pkg → /shared/libx` (a vendored checkout outside every search path), search
+directory `/proj`; `pkg/__init__.py`: `from .api import *`, `pkg/api.py`: `from .core import h2`. -/
+private def sProj : Str := "proj".toList
+private def sShared : Str := "shared".toList
+private def sLibx : Str := "libx".toList
+private def sApi : Str := "api".toList
+private def sCore : Str := "core".toList
+private def lnkEnv : Env :=
+  { fs := [[[pkg, initPy], [pkg, "api.py".toList], [pkg, "core.py".toList], ["target.py".toList]]], stdlib := [] }
+private def lnkM (site : ResolveSite) : Mounts :=
+  { rv := resolveLinks [([sProj, pkg], [sShared, sLibx])] 4, site := site, dirs := [[sProj]] }
+
+/-- Why `resolveSite = .searchDir` is load-bearing (a test on literals): with `.resolve()` applied
+to the located file instead, the origin of `pkg.api` leaves the search directory, the file gets no
+module name (`RootContext` raises `ValueError` at its first relative import) — while with the pinned
+site it gets `pkg.api` back and `.core` resolves as Python resolves it. -/
+theorem locate_cex_resolve_at_location :
+    (findModuleSpecFast lnkEnv [pkg, sApi]).bind (specAbs (lnkM .searchDir)) = some [sProj, pkg, "api.py".toList]
+    ∧ followBase lnkEnv (lnkM .searchDir) [pkg, sApi] = some [pkg, sApi]
+    ∧ (findModuleSpecFast lnkEnv [pkg, sApi]).bind (specAbs (lnkM .location)) = some [sShared, sLibx, "api.py".toList]
+    ∧ followBase lnkEnv (lnkM .location) [pkg, sApi] = none
+    ∧ Spec.pyResolveName (Spec.packageOf [pkg, sApi] false) 1 (some [sCore]) = .ok [pkg, sCore] := by
+  decide
+
+private def lnkFiles : List Walk.File :=
+  [ { dir := [pkg], stem := sInit, stmts := [.def_ 1 (h "h0"), .from_ 2 1 (some [sApi]) [(Walk.star, none)]] },
+    { dir := [pkg], stem := sApi, stmts := [.def_ 17 (h "h1"), .from_ 18 1 (some [sCore]) [(h "h2", none)]] },
+    { dir := [pkg], stem := sCore, stmts := [.def_ 33 (h "h2")] } ]
+private def lnkTarget (star : Bool) : Walk.File :=
+  { dir := [], stem := h "target",
+    stmts := [.def_ 49 (h "h3"),
+              if star then .from_ 50 0 (some [pkg]) [(h "h1", none)] else .from_ 50 0 (some [pkg, sApi]) [(h "h1", none)]] }
+private def lnkProj (star : Bool) : Walk.Proj :=
+  { env := lnkEnv, rootComps := [[], sProj], files := lnkFiles ++ [lnkTarget star],
+    phys := [([pkg, "__init__.py".toList], { abs := true, dir := [sShared, sLibx], stem := sInit, out := true }),
+             ([pkg, "api.py".toList], { abs := true, dir := [sShared, sLibx], stem := sApi, out := true }),
+             ([pkg, "core.py".toList], { abs := true, dir := [sShared, sLibx], stem := sCore, out := true })] }
+
+private def crashedWith (o : Walk.Out (Walk.Tab × Walk.Irs)) (e : String) : Bool :=
+  match o with
+  | .stop (.crash x) _ => x == e
+  | _ => false
+
+private def finished (o : Walk.Out (Walk.Tab × Walk.Irs)) : Bool :=
+  match o with
+  | .ok _ _ => true
+  | _ => false
+
+/-- The star-expansion enters a star-imported file under `Import.origin`, the FULLY resolved path: a
+module of a package that is a symbolic link to a directory off the search path is analysed under a
+path from which no module name can be derived — its first relative import ends the run in
+`ValueError` — although the very same file, followed as an ordinary import, is analysed under the
+path as spelled (`pkg.api`, `.core` ↦ `pkg.core`, as Python resolves it). -/
+theorem C13_cex_star_symlink :
+    starBase lnkEnv (lnkM resolveSite) [pkg, sApi] = none
+    ∧ followBase lnkEnv (lnkM resolveSite) [pkg, sApi] = some [pkg, sApi]
+    ∧ Spec.pyResolveName (Spec.packageOf [pkg, sApi] false) 1 (some [sCore]) = .ok [pkg, sCore]
+    ∧ crashedWith (Walk.run (lnkProj true) 30 (lnkTarget true)) "ValueError" = true
+    ∧ finished (Walk.run (lnkProj false) 30 (lnkTarget false)) = true
+    ∧ ((Walk.run (lnkProj false) 30 (lnkTarget false)).st.trace.map (·.result)) = [[pkg, sCore]] := by
+  decide
+
+/-- hence the path clauses of `walk_cur_is_file` need `Walk.LinkFree` -/
+theorem walk_cex_not_linkfree : ¬ Walk.LinkFree (lnkProj true) := by
+  intro hlf
+  have := hlf { dir := [pkg], stem := sApi, stmts := [] }
+  revert this
+  decide
+
+-- `C13_origin_below_search_dir` / `C13_located_roundtrip` / `walk_followed_cur_is_origin`: the linked
+-- package above; `/proj` has no module-naming suffix of its own
+example : findModuleInPathAbs (lnkM .searchDir).rv .searchDir [sProj] (lnkEnv.fs.headD []) [pkg, sApi]
+      = some [sProj, pkg, "api.py".toList]
+    ∧ (locate lnkEnv.fs [pkg, sApi]).head? = some (0, [pkg, "api.py".toList])
+    ∧ (∀ k, k < (dropEmptyFront (pathComps ((lnkM .searchDir).rv [sProj]))).length →
+        findModuleSpecFast lnkEnv ((dropEmptyFront (pathComps ((lnkM .searchDir).rv [sProj])) ++ [pkg, sApi]).drop k) = none)
+    ∧ (lnkProj false).rootComps = pathComps ((lnkM .searchDir).rv [sProj]) := by decide
+example : WellFormed [pkg, sApi] ∧ DotFree [pkg, sApi] ∧ PlainLast [pkg, sApi] :=
+  ⟨⟨by decide, by decide⟩, by intro c hc; revert c; decide, by decide, by decide⟩
+-- `resolveLinks`: a chain and a link inside a linked directory
+example : resolveLinks [([pa], [pb]), ([pb], [x]), ([x, y], [m])] 8 [pa, y, fN] = [m, fN] := by decide
+-- `Walk.LinkFree`: every project without links below its root
+example : Walk.LinkFree demo := Walk.linkFree_of_phys_nil demo rfl
 
 end Rattr.C13
